@@ -1,4 +1,5 @@
 import ScVerif.C18.HeapOps
+import ScVerif.C18.HeapModeOps
 import ScVerif.C18.PropsSeg
 /-!
 # C18 — property theorems, part 5: "…and never modify their arguments"
@@ -7,10 +8,10 @@ On an explicit heap of segment cells and slice backing arrays (HeapOps.lean, Hea
 the initial heap and the arguments, after `Cut`, `Shift`, `modepb.Cut` (here) and the loop of `Sum`
 (`C18_args_unchanged_sum`, PropsSeg) every cell and every backing array that existed before the call
 reads the same — including the spare capacity of argument slices, which is part of their arrays.
+`segmentpb.Sum` as a whole, `modepb.Shift` and `modepb.Sum` (`C18_args_unchanged_modes`).
 `ActiveAt`, `MagnitudeAt`, `Duration`, `Max*`, `SumMagnitude`, `MinAt` and the modepb readers contain no
-assignment through a pointer, `append` or `make` at all; `modepb.Shift` writes two fields of its own
-`proto.Clone`; `modepb.Sum` writes only its local `segmentSlices` (a `make`) and delegates to `Shift` and
-`Sum`.  On the real code the clause is decided for every operation by the monitor.
+assignment through a pointer, `append` or `make` at all.  On the real code the clause is decided for
+every operation by the monitor.
 
 Only property theorems and their non-vacuity examples live in this file.
 -/
@@ -26,6 +27,20 @@ theorem C18_args_unchanged (h : Heap) (d t : Int) (addr : Nat) (sl : Slice) (m :
      (∀ i, i < h.arrays.length → (heapModeCut h t m).1.arrays[i]? = h.arrays[i]?)) :=
   ⟨(heapCut_extends h d addr).pointwise, (heapShift_extends h d sl).pointwise,
    (heapModeCut_extends h t m).pointwise⟩
+
+/-- `segmentpb.Sum` (loop and `result` slice), `modepb.Shift` and `modepb.Sum` (clone, alignment through
+`Shift`, then `Sum`) leave every pre-existing cell and backing array unchanged — for any heap, any modes,
+any offsets.  With `C18_args_unchanged` this covers every operation of the two packages that allocates or
+writes at all. -/
+theorem C18_args_unchanged_modes (h : Heap) (d : Int) (cuts : List Edge) (m : HeapMode) (ms : List HeapMode) :
+    ((∀ a, a < h.cells.length → (heapSum h cuts).1.cells[a]? = h.cells[a]?) ∧
+     (∀ i, i < h.arrays.length → (heapSum h cuts).1.arrays[i]? = h.arrays[i]?)) ∧
+    ((∀ a, a < h.cells.length → (heapModeShift h d m).1.cells[a]? = h.cells[a]?) ∧
+     (∀ i, i < h.arrays.length → (heapModeShift h d m).1.arrays[i]? = h.arrays[i]?)) ∧
+    ((∀ a, a < h.cells.length → (heapModeSum h ms).1.cells[a]? = h.cells[a]?) ∧
+     (∀ i, i < h.arrays.length → (heapModeSum h ms).1.arrays[i]? = h.arrays[i]?)) :=
+  ⟨(heapSum_extends h cuts).pointwise, (heapModeShift_extends h d m).pointwise,
+   (heapModeSum_extends h ms).pointwise⟩
 
 /-- The theorem has content: had `modepb.Cut` made `before` a shallow copy of the mode (sharing the
 caller's `Segments` backing array), its `append(before.Segments[:index], sb)` would overwrite the
@@ -54,5 +69,17 @@ example :
 example :
     (let r := heapShift ⟨[⟨1, some 2⟩, ⟨2, some 2⟩], [[0, 1]]⟩ 4 ⟨0, 0, 2⟩; readSegs r.1 r.2)
     = shift 4 [⟨1, some 2⟩, ⟨2, some 2⟩] := by decide
+
+/-- `modepb.Shift` and `modepb.Sum` on the heap compute what the pure model computes (read back). -/
+example :
+    (let r := heapModeShift ⟨[⟨0, some 2⟩, ⟨2, some 2⟩], [[0, 1]]⟩ 3 ⟨none, ⟨0, 0, 2⟩⟩
+     (r.2.start, readSegs r.1 r.2.segs))
+    = (let p := modeShift 3 ⟨none, [⟨0, some 2⟩, ⟨2, some 2⟩]⟩; (p.start, p.segs)) := by decide
+example :
+    (let r := heapModeSum ⟨[⟨1, some 2⟩, ⟨3, some 3⟩, ⟨2, none⟩], [[0], [1], [2]]⟩
+        [⟨some 2, ⟨0, 0, 1⟩⟩, ⟨none, ⟨1, 0, 1⟩⟩, ⟨some 5, ⟨2, 0, 1⟩⟩]
+     r.2.map (fun m => (m.start, trimLast (dropRule true) (readSegs r.1 m.segs))))
+    = (modeSum [⟨some 2, [⟨1, some 2⟩]⟩, ⟨none, [⟨3, some 3⟩]⟩, ⟨some 5, [⟨2, none⟩]⟩]).map
+        (fun m => (m.start, m.segs)) := by decide
 
 end ScVerif.C18
